@@ -4,9 +4,8 @@
                        vsock_new on a valid configuration (c17_peer_fin_ok2_trace), and so is the predicate as
                        written under the monitored guard "no poll panics, no poll starts with consumed slots
                        waiting in the reassembly queue" (c17_peer_fin_guarded_trace).
-     c17_fin_seq_ok    FALSE of the model (c17_fin_seq_ok_refuted): defect D6, confirmed on the real code - an MTU
-                       probe that expires after our FIN was numbered is cut again and its second part takes the
-                       FIN's sequence number.  See the end of the file. *)
+     c17_fin_seq_ok    was FALSE of the model: defect D6, confirmed on the real code and repaired (see the end of
+                       the file: the former witnesses are regression theorems).  A proof for every trace is open. *)
 From Utp Require Import Base.Prelude Wire.SeqNr Wire.Header Wire.Header_Proofs Rtt.Rtte Mtu.SegSizes
   Rx.Rx Rx.Rx_Proofs Tx.Ring Tx.Segments Conn.Recovery Conn.Msg Conn.VSockRec Conn.VSock Conn.VSockRun Conn.VObs
   Conn.VSock_Lemmas Conn.VSock_LemmasStep Conn.VSock_LemmasTx Conn.VSock_LemmasFin Conn.C17_Pred Conn.C17_Proofs
@@ -448,31 +447,17 @@ Definition tr_run (cfg : vconfig) (ops : list vop) : list fstep :=
   | None => []
   end.
 
-(* ---- D6, first form (repaired in /repo 4d912d4: the retransmit-timer flag handed to pop_expired_mtu_probe
-   is off once our FIN is numbered).  1519 bytes are written: segment 101 (528 bytes) and the MTU probe 102
-   (991 bytes) go out; both halves are dropped: our FIN is numbered 103 and sent.  400 ms later the
-   retransmission timer has expired.  Before the repair the probe (mtu_probe_max_retransmissions = 0) was
-   popped by split_tx_queue_into_segments and cut again into 102 (528 bytes) and 103 (463 bytes): an ST_DATA
-   carrying the FIN's sequence number.  Now the poll retransmits 101 and every predicate holds. *)
+(* ---- D6 (found by this proof effort, confirmed on the real code, repaired in /repo 4d912d4 + f62adfc).  An MTU
+   probe given up AFTER our FIN was numbered - popped because it expired (first form) or because the path
+   answered EMSGSIZE to its retransmission by the new-data loop (second form) - was cut again and its second
+   part took the FIN's sequence number: an ST_DATA with the FIN's number on the wire (Nagle off), or, with
+   the default options, the last bytes never sent and Ready(Ok) after the peer acknowledged the FIN.
+   Repairs: the expiry flag handed to pop_expired_mtu_probe is off once our FIN is numbered, and
+   unsent_data_exists counts an undelivered MTU probe, so the FIN is not numbered behind a probe that may
+   still be given up.  The four former witnesses are regressions: every predicate of C17 holds on them. *)
 Definition d6_ops : list vop :=
   [VoWrite (repeat 7 1519); VoPoll []; VoDropReader; VoDropWriter; VoPoll []; VoSetNow 1400000000; VoPoll []].
 
-Definition d6_regression_b : bool :=
-  let cfg := tr_cfg false 0 1048576 in
-  let tr := tr_run cfg d6_ops in
-  c17_fin_seq_ok cfg tr && forallb (c17_fin_covers_data_ok cfg) tr &&
-  forallb (c17_fin_number_step_ok cfg) tr && forallb (c17_fin_after_data_noerr cfg) tr &&
-  match map (fun p => (ch_type (fq_hdr p), pkt_seq p, fq_plen p)) (all_pkts tr) with
-  | [(ST_DATA, 101, 528); (ST_DATA, 102, 991); (ST_FIN, 103, 0); (ST_DATA, 101, 528)] => true
-  | _ => false
-  end.
-
-Theorem c17_fin_seq_regression : d6_regression_b = true.
-Proof. vm_compute. reflexivity. Qed.
-
-(* the same with the default options (Nagle on, one probe retransmission), where 463 bytes used to be lost:
-   the probe is retransmitted until the peer acknowledges it; the connection ends Closed, Ready(Ok), with
-   every byte sent *)
 Definition d6_loss_ops : list vop :=
   [VoWrite (repeat 7 1519); VoPoll []; VoDeliver (tr_msg ST_STATE 1 101 []); VoPoll [];
    VoDropReader; VoDropWriter; VoPoll [];
@@ -480,123 +465,35 @@ Definition d6_loss_ops : list vop :=
    VoDeliver (tr_msg ST_STATE 1 102 []); VoPoll [];
    VoDeliver (tr_msg ST_STATE 1 103 []); VoPoll []].
 
-Definition d6_loss_regression_b : bool :=
-  let cfg := tr_cfg true 1 1048576 in
-  let tr := tr_run cfg d6_loss_ops in
-  c17_fin_seq_ok cfg tr && forallb (c17_fin_covers_data_ok cfg) tr && forallb (c17_fin_after_data_noerr cfg) tr &&
-  match map (fun p => (ch_type (fq_hdr p), pkt_seq p, fq_plen p)) (all_pkts tr) with
-  | [(ST_DATA, 101, 528); (ST_DATA, 102, 991); (ST_FIN, 103, 0); (ST_DATA, 102, 991); (ST_FIN, 103, 0);
-     (ST_DATA, 102, 991); (ST_FIN, 103, 0)] => true
-  | _ => false
-  end &&
-  match rev tr with
-  | st :: _ => match fs_result st, f_state (fs_post st) with
-               | FrPoll PollReadyOk _ _ _, Closed => true
-               | _, _ => false
-               end
-  | [] => false
-  end.
-
-Theorem c17_fin_covers_data_regression : d6_loss_regression_b = true.
-Proof. vm_compute. reflexivity. Qed.
-
-(* ---- D6, second form (NOT repaired by 4d912d4; the real code does the same, harness case in the report):
-   the other pop.  Segment 101 and the probe 102 are outstanding, our FIN 103 is on the wire; the path now
-   refuses datagrams above 548 bytes (EMSGSIZE); the retransmission timer retransmits 101 and rewinds
-   last_sent_seq_nr; the acknowledgement of 101 re-opens the new-data loop of send_tx_queue, which sends the
-   probe again: EMSGSIZE, pop_mtu_probe, restart, the 991 bytes are cut again (the search ends at 528):
-   102 (528 bytes) and 103 (463 bytes, Nagle off) - the FIN's number on an ST_DATA. *)
 Definition d6e_ops (lim : Z) : list vop :=
   [VoWrite (repeat 7 1519); VoPoll []; VoDropReader; VoDropWriter; VoPoll []; VoSetLimit (Some lim);
    VoSetNow 1400000000; VoPoll []; VoDeliver (tr_msg ST_STATE 1 101 []); VoPoll []].
 
-Definition d6_shape_b : bool :=
-  let cfg := tr_cfg false 1 1048576 in
-  let tr := tr_run cfg (d6e_ops 548) in
-  negb (c17_fin_seq_ok cfg tr) &&
-  C10_Pred.vconfig_ok cfg &&
-  (* nothing cuts the own-initiative prefix short: it is the whole trace *)
-  (Nat.eqb (length (own_prefix tr)) (length tr)) &&
-  match map (fun p => (ch_type (fq_hdr p), pkt_seq p, fq_plen p)) (all_pkts tr) with
-  | [(ST_DATA, 101, 528); (ST_DATA, 102, 991); (ST_FIN, 103, 0); (ST_DATA, 101, 528);
-     (ST_DATA, 102, 528); (ST_DATA, 103, 463)] => true
-  | _ => false
-  end &&
-  (* every step predicate of C17 holds on that trace: none of them sees it (every byte is sent, only the
-     number is used twice) *)
-  forallb (c17_fin_number_step_ok cfg) tr && forallb (c17_fin_after_data_noerr cfg) tr &&
-  forallb (c17_fin_covers_data_ok cfg) tr &&
-  c17_fin_same_ok cfg tr.
-
-Theorem c17_fin_seq_refuted_shape : d6_shape_b = true.
-Proof. vm_compute. reflexivity. Qed.
-
-Theorem c17_fin_seq_ok_refuted :
-  exists cfg ops s0,
-    C10_Pred.vconfig_ok cfg = true /\
-    vsock_new (fixed_cc 4096) (fun _ _ => tt) cfg = Some s0 /\
-    c17_fin_seq_ok cfg (ftrace (fixed_cc 4096) s0 ops) = false.
-Proof.
-  exists (tr_cfg false 1 1048576), (d6e_ops 548).
-  destruct (vsock_new (fixed_cc 4096) (fun _ _ => tt) (tr_cfg false 1 1048576)) as [s0|] eqn:E;
-    [|vm_compute in E; discriminate].
-  exists s0. split; [reflexivity|]. split; [reflexivity|].
-  pose proof c17_fin_seq_refuted_shape as H. unfold d6_shape_b, tr_run in H. cbv zeta in H. rewrite E in H.
-  repeat (apply andb_true_iff in H; destruct H as [H _]).
-  apply negb_true_iff in H. exact H.
-Qed.
-
-(* ---- the second form with the default options (Nagle on) and a path limit of 1000 bytes LOSES bytes: the
-   probe is cut again into 102 (760 bytes, a new probe) which goes out with the FIN 103 behind it; the last
-   231 bytes are cut as segment 103 only after the acknowledgement of 102 - and never sent, because
-   last_sent_seq_nr is already 103 (the FIN).  The peer's acknowledgement of the FIN removes that never-sent
-   segment and the poll returns Ready(Ok): 231 written bytes never left.  c17_fin_seq_ok does not see it
-   (no datagram carries a wrong number); c17_fin_covers_data_ok does. *)
 Definition d6e_loss_ops : list vop :=
   d6e_ops 1000 ++ [VoDeliver (tr_msg ST_STATE 1 102 []); VoPoll []; VoDeliver (tr_msg ST_STATE 1 103 []); VoPoll []].
 
-Definition d6_loss_b : bool :=
-  let cfg := tr_cfg true 1 1048576 in
-  let tr := tr_run cfg d6e_loss_ops in
-  negb (forallb (c17_fin_covers_data_ok cfg) tr) &&
-  C10_Pred.vconfig_ok cfg &&
-  c17_fin_seq_ok cfg tr && forallb (c17_fin_after_data_noerr cfg) tr &&
-  match map (fun p => (ch_type (fq_hdr p), pkt_seq p, fq_plen p)) (all_pkts tr) with
-  | [(ST_DATA, 101, 528); (ST_DATA, 102, 991); (ST_FIN, 103, 0); (ST_DATA, 101, 528);
-     (ST_DATA, 102, 760); (ST_FIN, 103, 0)] => true
-  | _ => false
-  end &&
-  match rev tr with
-  | st :: st1 :: st2 :: _ =>
-      match fs_result st, f_state (fs_post st) with
-      | FrPoll PollReadyOk _ _ _, Closed => true
-      | _, _ => false
-      end &&
-      (* before the FIN's acknowledgement: FinWait1, one segment of 231 bytes, never sent *)
-      match f_state (fs_post st2), f_segs (fs_post st2) with
-      | FinWait1 103, [g] => (fg_size g =? 231) && (fg_sent_kind g =? 0) && (f_snd_una (fs_post st2) =? 103)
-      | _, _ => false
-      end
-  | _ => false
-  end.
+Definition d6_reg (cfg : vconfig) (ops : list vop) : bool :=
+  let tr := tr_run cfg ops in
+  C10_Pred.vconfig_ok cfg && negb (match tr with [] => true | _ => false end) &&
+  c17_fin_seq_ok cfg tr && forallb (c17_fin_covers_data_ok cfg) tr &&
+  forallb (c17_fin_number_step_ok cfg) tr && forallb (c17_fin_after_data_noerr cfg) tr &&
+  c17_fin_same_ok cfg tr &&
+  (* no ST_DATA of the trace carries the number of an ST_FIN of the trace *)
+  forallb (fun p => negb (pkt_is ST_DATA p) ||
+                    negb (existsb (fun q => pkt_is ST_FIN q && (pkt_seq q =? pkt_seq p)) (all_pkts tr)))
+          (all_pkts tr).
 
-Theorem c17_fin_covers_data_refuted_shape : d6_loss_b = true.
+Definition d6_regression_b : bool :=
+  d6_reg (tr_cfg false 0 1048576) d6_ops && d6_reg (tr_cfg false 1 1048576) (d6e_ops 548).
+
+Theorem c17_fin_seq_regression : d6_regression_b = true.
 Proof. vm_compute. reflexivity. Qed.
 
-Theorem c17_fin_covers_data_ok_refuted :
-  exists cfg ops s0,
-    C10_Pred.vconfig_ok cfg = true /\
-    vsock_new (fixed_cc 4096) (fun _ _ => tt) cfg = Some s0 /\
-    forallb (c17_fin_covers_data_ok cfg) (ftrace (fixed_cc 4096) s0 ops) = false.
-Proof.
-  exists (tr_cfg true 1 1048576), d6e_loss_ops.
-  destruct (vsock_new (fixed_cc 4096) (fun _ _ => tt) (tr_cfg true 1 1048576)) as [s0|] eqn:E;
-    [|vm_compute in E; discriminate].
-  exists s0. split; [reflexivity|]. split; [reflexivity|].
-  pose proof c17_fin_covers_data_refuted_shape as H. unfold d6_loss_b, tr_run in H. cbv zeta in H. rewrite E in H.
-  repeat (apply andb_true_iff in H; destruct H as [H _]).
-  apply negb_true_iff in H. exact H.
-Qed.
+Definition d6_loss_regression_b : bool :=
+  d6_reg (tr_cfg true 1 1048576) d6_loss_ops && d6_reg (tr_cfg true 1 1048576) d6e_loss_ops.
+
+Theorem c17_fin_covers_data_regression : d6_loss_regression_b = true.
+Proof. vm_compute. reflexivity. Qed.
 
 (* ---- c17_peer_fin_ok as written is FALSE of the model: a receive buffer of 2000 bytes; two ST_DATA of 1500
    bytes: the first is handed to the reader's queue, the second is consumed but cannot be (500 bytes free);
